@@ -54,7 +54,7 @@ def _work(task: tuple) -> dict:
             return {"kind": "fn", "area": area, "key": key, "fn": c.fn, "status": r.status, "error": r.error, "paths": r.paths,
                     "infeasible_paths": r.infeasible_paths, "src_sha": r.src_sha, "fn_hash": r.fn_hash, "canary": r.canary,
                     "seconds": round(r.seconds, 3), "obligations": [_ob_dict(o) for o in r.obligations], "sample_smt2": sample,
-                    "props": c.props, "note": c.note}
+                    "props": c.props, "note": c.note, "loops": r.loops}
         else:
             lem = next(l for l in lemmas if l.name == key)
             obs = prove_lemma(lem, world.axioms, lib, timeout_ms)
@@ -157,6 +157,12 @@ def check_property(prop: str, tier: str, seed: int) -> int:
                     "src_sha256": r["src_sha"][:16], "ast_hash": r["fn_hash"], "canary": r["canary"], "seconds": r["seconds"]})
         if r["status"] == "crash":
             crashes.append(f"{r['key']}: {r['error'][-300:]}")
+            continue
+        # loop invariants are keyed by the ordinal of the loop in the body: when the number of loops differs from the baseline the
+        # invariants were written for, failing invariant obligations say nothing about the property -- the function is undecided
+        base_loops = lock.get("loops", {}).get(r["key"])
+        if r["status"] == "ok" and base_loops is not None and r.get("loops", -1) not in (-1, base_loops) and any(o["status"] != "discharged" for o in r["obligations"]):
+            undecided.append(f"{r['key']}: loop structure changed ({r.get('loops')} loops, the contract's invariants are written for {base_loops}); not decided")
             continue
         if r["status"] in ("out-of-reach", "vacuous"):
             undecided.append(f"{r['key']}: {r['status']}: {r['error']}")
@@ -285,6 +291,7 @@ def make_lock() -> None:
     from pyvc.props import PROPS
     obligations: dict[str, str] = {}
     functions: dict[str, str] = {}
+    loops: dict[str, int] = {}
     for prop, spec in PROPS.items():
         results, _ = run_proofs(spec.get("areas", []), prop, 20000)
         if spec.get("custom"):
@@ -292,9 +299,11 @@ def make_lock() -> None:
         for r in results:
             if r["status"] == "ok" and all(o["status"] == "discharged" for o in r["obligations"]) and r["obligations"]:
                 functions[r["key"]] = r["fn_hash"]
+                if r.get("loops", -1) >= 0:
+                    loops[r["key"]] = r["loops"]
             for o in r["obligations"]:
                 if o["status"] == "discharged":
                     obligations[o["name"]] = r["key"]
     os.makedirs(os.path.dirname(LOCK), exist_ok=True)
-    json.dump({"obligations": obligations, "functions": functions}, open(LOCK, "w"), indent=0, sort_keys=True)
+    json.dump({"obligations": obligations, "functions": functions, "loops": loops}, open(LOCK, "w"), indent=0, sort_keys=True)
     print(f"lock: {len(obligations)} obligations, {len(functions)} functions")
